@@ -3,6 +3,8 @@ CONSTANTS
   MaxDocs = 4
   MaxFaults = 2
   DeadWriterStaysDead = FALSE
+  KillUpdaterOnSaveFail = TRUE
 INVARIANT OkCommitIsComplete
 INVARIANT LastCommitIntact
+CONSTRAINT Bound
 CHECK_DEADLOCK FALSE
